@@ -9,7 +9,7 @@ VARIANT = 'san'
 RULE = ('a corpus of scenarios covering every request type (Discover both services, Emit 1..5 descriptors, Probe/Train recording and '
         'duplicates, Query with 0/3/40 observations, QueryLargeTlv of icon / friendly name / hardware id / unknown, Reset) run under: '
         'the k-th core allocation failing for every k = 1..K (K above the scenario\'s allocation count), all allocations failing, single '
-        'and repeated transmit refusals, every single failing getter and random subsets (thorough: all 2^9), then the fault cleared, a '
+        'and repeated transmit refusals, every single failing getter and random subsets (thorough: all 2^9), the process-wide icon / friendly-name / hardware-id getters failing during the faulty phase and working again after it, then the fault cleared, a '
         'Reset, and a continuation compared against a fresh twin interface; plus the four constructors under each allocation failure, the tick with every subset of its objects missing in every enumeration state, and the daemon start-up order with the k-th allocation refused followed by the Discover flow and ticks; '
         'built with ASan+UBSan; non-trivial = at least one injected fault fired (the model\'s ledger or output differs from the fault-free run); '
         'distinct = distinct projected transcript')
@@ -39,7 +39,7 @@ def wrap(rng, head_extra, fault_ops, frames, a):
     ops = [F.iface_line(0, mac=F.OWN, mtu=576, **a), F.iface_line(1, mac=F.OWN, mtu=576, **a),
            F.glob_line(icon='gen:900:1', fname='gen:40:2', hwid='4100420043')] + head_extra + fault_ops
     ops += ['rx 0 %s zero' % f for f in frames if len(f) // 2 <= 576]
-    ops += ['fault clear', 'set 0 getfail=0', 'rx 0 %s zero' % F.reset(F.STATIONS[0]), 'note recovered']
+    ops += ['fault clear', 'set 0 getfail=0', 'glob icon=gen:900:1 fname=gen:40:2 hwid=4100420043', 'rx 0 %s zero' % F.reset(F.STATIONS[0]), 'note recovered']
     M = F.STATIONS[1]
     cont = [F.discover(M, 1, 1), F.qltlv(M, F.OWN, 2, 0x0e, 0), F.probe('0a0000000009', F.OWN, '0b0000000009', F.OWN), F.query(M, F.OWN, 3),
             F.emit(M, F.OWN, 4, [(1, 0, F.STATIONS[2], F.STATIONS[3])])]
@@ -64,6 +64,9 @@ def cases(rng, tier, X):
             out.append(('%s_s%d' % (name, j), wrap(rng, [], ['fault send=%d' % j], frames, a)))
         out.append(('%s_sall' % name, wrap(rng, [], ['fault sendall'], frames, a)))
         out.append(('%s_s1_2_3' % name, wrap(rng, [], ['fault send=1,2,3'], frames, a)))
+        # the process-wide getters fail during the faulty phase (icon / friendly name unavailable, hardware id empty) and work again afterwards
+        for gf in ('icon=none', 'fname=none', 'icon=none fname=none hwid=-', 'icon=- fname=-'):
+            out.append(('%s_glob_%s' % (name, gf.replace(' ', '_').replace('=', '')), wrap(rng, ['glob ' + gf], [], frames, a)))
         masks = [1 << b for b in range(9)] + [rng.randrange(1, 512) for _ in range(6 if tier == 'quick' else 0)]
         if tier == 'thorough':
             masks = list(range(1, 512))
